@@ -174,9 +174,10 @@ impl Gen {
             let f = self.filler(n, cat);
             return format!("{}{}", tok, f);
         }
-        if self.allow_long && w == 0 && matches!(cat, None | Some("Text")) && self.rng.chance(12) {
+        if self.allow_long && w == 0 && matches!(cat, None | Some("Text")) && self.rng.chance(25) {
             self.serial += 1;
-            let len = *self.rng.pick(&[65535u32, 65536, 65537, 65535 + 4096, 131072, 70000]) + if self.rng.chance(500) { 0 } else { self.rng.below(3000) as u32 };
+            // (the exact boundary lengths are what matters: drawn two times out of three)
+            let len = *self.rng.pick(&[65535u32, 65535, 65536, 65536, 65537, 65535 + 4096, 131072, 70000]) + if self.rng.chance(670) { 0 } else { self.rng.below(3000) as u32 };
             return long_string(self.serial, len);
         }
         // text that *starts* with the bytes of a byte-order mark in some code
@@ -996,7 +997,7 @@ impl Gen {
                 }
             }
         }
-        if self.rng.chance(12) && !s.is_empty() {
+        if self.rng.chance(30) && !s.is_empty() {
             // U+0000 is a character like any other to the setters
             let at = self.rng.usize_below(s.chars().count() + 1);
             let mut cs: Vec<char> = s.chars().collect();
@@ -2260,7 +2261,7 @@ pub fn gen_foreign_spec_ext(rng: &mut Prng, big: bool, wide_ok: bool) -> Foreign
         docsummary: rng.chance(100),
         shuffle_catalog: rng.chance(300),
         catalog_first: big || rng.chance(200),
-        stale_validation: if validation && rng.chance(250) {
+        stale_validation: if validation && rng.chance(400) {
             // the names the history's own create_table calls will use
             ["T", "X"].iter().flat_map(|p| (1..=4).flat_map(move |i| (1..=2).map(move |j| (format!("{}{}", p, i), format!("C{}", j))))).collect()
         } else {
@@ -2347,7 +2348,7 @@ pub fn generate(property: &str, profile: Profile, seed: u64, run: u64) -> Trace 
         table_seq: 0,
         weights,
         max_rows_per_insert: *rng.pick(&[2usize, 5, 12, 40]),
-        allow_long: rng.chance(200),
+        allow_long: rng.chance(300),
         explicit_stream_flush: profile == Profile::Script,
         handles_open: Vec::new(),
         avoid_delete_under_handle: rng.chance(900),
